@@ -27,6 +27,11 @@ class HarnessError(Exception):
     pass
 
 
+class OutOfDomain(Exception):
+    """the generated input left the domain the property quantifies over (e.g. a constrained value ended
+    up outside the support of the distribution that finally owns the address); the case is counted and skipped"""
+
+
 def _genjax_frame(tb):
     """innermost frame inside the genjax sources, as 'file:function'"""
     hit = None
@@ -195,6 +200,9 @@ class Ctx:
                     return None  # shrink budget exhausted: unseen cases count as passing
                 try:
                     check(case)
+                    v = None
+                except OutOfDomain as e:
+                    self.count("skipped:out-of-domain")
                     v = None
                 except Violation as e:
                     v = e
